@@ -17,8 +17,8 @@ import (
 	"github.com/sheerbytes/sheerbytes/internal/app"
 	"github.com/sheerbytes/sheerbytes/internal/clienthttp"
 	"github.com/sheerbytes/sheerbytes/internal/ice"
-	vrt "github.com/sheerbytes/sheerbytes/internal/verif/vrt"
 	"github.com/sheerbytes/sheerbytes/internal/verif/vlib"
+	vrt "github.com/sheerbytes/sheerbytes/internal/verif/vrt"
 	"github.com/sheerbytes/sheerbytes/internal/wsclient"
 	"github.com/sheerbytes/sheerbytes/pkg/protocol"
 )
@@ -43,11 +43,11 @@ var c16Dims = []flagDim{
 }
 
 type turnSpelling struct {
-	flag                string // value of --turn-server
-	addr                []string
-	tls, tcp            []bool
-	sni                 []string
-	clientMayRefuse     bool
+	flag            string // value of --turn-server
+	addr            []string
+	tls, tcp        []bool
+	sni             []string
+	clientMayRefuse bool
 }
 
 var c16Turn = []turnSpelling{
